@@ -45,6 +45,10 @@ class EventFactory:
                 print(f'Unknown event class "{name}": {err}')
                 continue
             args = options[EventClazz.PREFIX].toJSON(exclude={'_type'})
+            if args.get('interval', 1) <= 0 or args.get('timescale', 1) <= 0:
+                # a repeating event needs a positive interval and timescale
+                raise ValueError(
+                    f'{name}: interval and timescale must be greater than zero')
             retval.append(EventClazz(**args))
         return retval
 
